@@ -319,6 +319,7 @@ func (s *Set) onWrite(w *simapi.Write, v *simapi.View) {
 // Finish runs the end-of-run oracles (C05, C07, C09) and returns all violations.
 func (s *Set) Finish() []Violation {
 	s.c09()
+	s.c18Final()
 	s.c07()
 	s.c05()
 	sort.Slice(s.Violations, func(i, j int) bool { return s.Violations[i].Fingerprint < s.Violations[j].Fingerprint })
